@@ -203,6 +203,54 @@ def sec_couplings(rep):
                                     )
                 if process == "CC":
                     rep.check(f"C02/get_fl11_weight/post/CC/{proj}/pos={pos}", lambda sy, proj=proj, pos=pos: (H.coupling_constants(sy, "CC", proj, pos).get_fl11_weight(1, sy.Q2, 4, "VV"), 0), sy, pre)
+    # native companion (the code runs with floats only; the PDG value is computed separately): every sign
+    # region of the lepton couplings -- polarisation of either sign and size, sin2theta_w on both sides of
+    # 1/4 (where the electron's vector coupling changes sign), Q2 from the photon-dominated region to far
+    # above MZ2 -- so that a rewrite the symbolic engine cannot follow (vectorised numpy, masks, casts) is
+    # still compared with the specification
+    envs = [dict(s2w=s2w, MZ2=8315.178, MW2=6463.8, pol=pol, pcorr=pc, Q2=q2) for s2w in (0.1, 0.23121, 0.31, 0.6) for pol in (-1.0, -0.6, -0.1, 0.0, 0.1, 0.37, 1.0) for q2 in (10.0, 8000.0, 1.0e5) for pc in ((0.0, 0.0361) if (pol, q2) == (0.37, 8000.0) else (0.0,))]
+    worst = {}
+    for process in ("EM", "NC"):
+        for proj, pid in H.PROJECTILES.items():
+            bad, n_ = [], 0
+            for env in envs:
+                syn = sy.numeric(env)
+                try:
+                    cc = H.coupling_constants(syn, process, proj, None)
+                    for q in range(1, 7):
+                        for ct in H.COUPLING_TYPES:
+                            for sign in (1, -1):
+                                got = float(cc.get_weight(sign * q, syn.Q2, ct))
+                                exp = float(spec_weight(process, pid, q, ct, syn, None, ""))
+                                n_ += 1
+                                if abs(got - exp) > 1e-11 * max(1.0, abs(exp)):
+                                    bad.append((dict(env), sign * q, ct, got, exp))
+                except Exception as e:  # noqa
+                    bad.append((dict(env), None, None, f"{type(e).__name__}: {e}", None))
+            rep.cases += 1
+            ok = not bad
+            rep.add(ob_eval(f"C02/get_weight/native companion over the sign regions of the lepton couplings/{process}/{proj}", ok, detail=f"{n_} evaluations over {len(envs)} parameter points" + ("" if ok else f"; first mismatch (parameters, pid, type, got, PDG): {bad[0]}"), inputs={} if ok else {"parameters": str(bad[0][0]), "pid": bad[0][1], "coupling_type": bad[0][2], "got": repr(bad[0][3]), "PDG": repr(bad[0][4])}, replay={"confirmed": True, "python": "CouplingConstants.get_weight at the listed parameters"}))
+    # history on ONE coupling object (a run asks the same object for every flavour mask it meets:
+    # light and heavy contributions, nf on both sides of a threshold): each answer is the one a fresh
+    # object gives
+    masks_seq = ("dus", "c", "dusc", "b", "duscb", "dus", "t", "duscbt", "c")
+    for proj in ("electron", "positron", "neutrino", "antineutrino"):
+        rep.cases += 1
+        syn = sy.numeric(dict(s2w=0.23121, MZ2=8315.178, MW2=6463.8, pol=0.0, pcorr=0.0, Q2=100.0))
+        one = H.coupling_constants(syn, "CC", proj, None)
+        bad = []
+        try:
+            for mask in masks_seq:
+                for q in range(1, 7):
+                    for sign in (1, -1):
+                        a = float(one.get_weight(sign * q, syn.Q2, "VV", cc_mask=mask))
+                        b = float(H.coupling_constants(syn, "CC", proj, None).get_weight(sign * q, syn.Q2, "VV", cc_mask=mask))
+                        if a != b:
+                            bad.append((mask, sign * q, a, b))
+        except Exception as e:  # noqa
+            bad.append(("raised", None, f"{type(e).__name__}: {e}", None))
+        ok = not bad
+        rep.add(ob_eval(f"C02/get_weight/history: one coupling object asked for the masks {masks_seq} answers each like a fresh object/CC/{proj}", ok, detail="" if ok else f"(mask, pid, same object, fresh object): {bad[:3]}", inputs={} if ok else {"sequence_of_masks": str(masks_seq), "first_mismatch (mask, pid, same object, fresh object)": str(bad[0])}, replay={"confirmed": True, "python": "one CouplingConstants object: get_weight(pid, Q2, 'VV', cc_mask=m) for m in the sequence"}))
     rep.check("C02/get_weight/unknown-process", lambda sy: (H.coupling_constants(sy, "XX", "electron").get_weight(1, sy.Q2, "VV"), None), sy, pre, exc_ok=lambda p: isinstance(p.exc, ValueError))
     rep.sample({"get_weight cases": n_w, "example": "C02/get_weight/post/NC/electron/pos=None/2/VV/None: result == e_q^2 l_gg + 2 e_q gV_q l_gZ eta + gV_q^2 l_ZZ eta^2 (PDG, spec/ew.py), callees replaced by their contracts"})
 
